@@ -355,6 +355,7 @@ def run_scenario(scn):
         "n": n,
         "k": k,
         "kind": scn["kind"],
+        "direct": 0,
         "force": 1 if scn["kind"] == "knn" else 0,
         "prop": 1 if scn.get("propagate") else 0,
         "dens": [rk(v) for v in dens],
@@ -387,20 +388,24 @@ def judge(rep, items, tag, pids, workers=6, detail_fn=None):
     groups = {}
     for scn, rec in items:
         groups.setdefault(rec["trace"]["n"], []).append((scn, rec))
+    CHUNK = 1500
+    groups = {(n, c): lst[c * CHUNK:(c + 1) * CHUNK] for n, lst in groups.items() for c in range((len(lst) + CHUNK - 1) // CHUNK)}
     tmpl = open(os.path.join(H.CFG, "OPFKnnTrace.tmpl.cfg")).read()
     d = H.subdir("knn-" + tag)
 
-    def one(n):
-        lst = groups[n]
-        path = H.write_json(os.path.join(d, "tr-%d.json" % n), [rec["trace"] for _, rec in lst])
-        res = H.run_tlc("OPFKnnTrace", tmpl.replace("@N@", str(n)), workers=1, env={"TRACE_FILE": path}, timeout=1800, heap="3g", tag="%s-%d" % (tag, n))
-        return n, res
+    def one(key):
+        n, ch = key
+        lst = groups[key]
+        path = H.write_json(os.path.join(d, "tr-%d-%d.json" % (n, ch)), [rec["trace"] for _, rec in lst])
+        res = H.run_tlc("OPFKnnTrace", tmpl.replace("@N@", str(n)), workers=1, env={"TRACE_FILE": path}, timeout=1800, heap="3g", tag="%s-%d-%d" % (tag, n, ch))
+        return key, res
 
     out = {"p_judged": 0, "m_ok": 0, "m_bad": 0, "violating": 0}
     with ThreadPoolExecutor(max_workers=workers) as ex:
         results = list(ex.map(one, sorted(groups)))
-    for n, res in results:
-        lst = groups[n]
+    for key, res in results:
+        n = key[0]
+        lst = groups[key]
         pr = {p[0]: p[1:] for p in res.prints if p and isinstance(p[0], str)}
         for kx in ("PBAD", "MOK", "MBAD", "PJUDGED"):
             if kx not in pr:
@@ -418,7 +423,7 @@ def judge(rep, items, tag, pids, workers=6, detail_fn=None):
             if viol:
                 out["violating"] += 1
                 for pid, clause in viol:
-                    det = detail_fn(scn, rec, clause) if detail_fn else (scn.get("metric") if scn["mode"] == "metric" else scn["mode"])
+                    det = detail_fn(scn, rec, clause) if detail_fn else (scn.get("metric") if scn.get("mode") == "metric" else scn.get("mode", "direct"))
                     rep.violation(site(scn), clause, det, {"scenario": scn, "failing_clauses": pbad[tid], "recorded": {kk: rec["trace"][kk] for kk in ("k", "dens", "adj", "fin", "L")}, "predictions": rec["trace"]["q"][:20]})
             if tid not in mok:
                 out["m_bad"] += 1
@@ -441,7 +446,7 @@ def handle_skip(rep, scn, why, pids):
             rep.skip("fit_or_predict_raised_" + why[1].split(":")[0])
     elif why[0] == "violation":
         if why[1] in pids:
-            rep.violation(site(scn), why[2], scn.get("metric") if scn["mode"] == "metric" else scn["mode"], {"scenario": scn, "note": why[3]})
+            rep.violation(site(scn), why[2], scn.get("metric") if scn.get("mode") == "metric" else scn.get("mode", "direct"), {"scenario": scn, "note": why[3]})
         else:
             rep.skip("other_property_%s_%s" % (why[1], why[2]))
 
@@ -575,3 +580,92 @@ def tlc_matrices(rep, n, maxw):
         raise H.MachineryError("KnnGen export incomplete: %d of %d" % (len(ms), res.distinct))
     rep.add_tlc("KnnGen N=%d MaxW=%d" % (n, maxw), res, kind="scenario-enumeration")
     return ms
+
+
+# ---------------------------------------------------------------------------------------------------
+# spec -> code replay at the level of one clustering pass
+# ---------------------------------------------------------------------------------------------------
+def direct_scenario(rng, n=None):
+    """An initial state of the design model OPFKnn, with densities on a half-integer grid so that 'within 1 but not
+    equal' is reachable: densities, k-NN adjacency, labels, force."""
+    n = n or rng.randrange(3, 7)
+    k = rng.randrange(1, min(4, n))
+    kind = rng.choice(["knn", "unsup"])
+    return {
+        "kind": kind,
+        "direct": True,
+        "n": n,
+        "k": k,
+        "dens": [rng.randrange(2, 9) / 2.0 for _ in range(n)],          # 1.0, 1.5, ..., 4.0
+        "adj": [sorted(rng.sample([j for j in range(n) if j != i], k)) for i in range(n)],
+        "Y": relabel([rng.randrange(2) for _ in range(n)]),
+        "force": bool(rng.getrandbits(1)) if kind == "knn" else False,
+    }
+
+
+def run_direct(scn):
+    """Installs the scenario through the public Node / model attributes and runs ONE clustering pass of the real model
+    (the private _clustering method is only the vehicle: what is judged are the public node attributes afterwards)."""
+    np = _np()
+    H.import_opfython()
+    install_wrappers()
+    from opfython.models.knn_supervised import KNNSupervisedOPF
+    from opfython.models.unsupervised import UnsupervisedOPF
+    from opfython.subgraphs.knn import KNNSubgraph
+
+    n, k = scn["n"], scn["k"]
+    sg = KNNSubgraph(np.arange(n, dtype=float).reshape(n, 1), np.array(scn["Y"], dtype=int))
+    for i, nd in enumerate(sg.nodes):
+        nd.density = float(scn["dens"][i])
+        nd.cost = float(scn["dens"][i]) - 1
+        nd.adjacency = [float(j) for j in scn["adj"][i]]
+    sg.best_k = k
+    model = (KNNSupervisedOPF(max_k=k) if scn["kind"] == "knn" else UnsupervisedOPF(min_k=1, max_k=max(k, 1)))
+    model.subgraph = sg
+    CTX.update(on=True, model=model, snaps=[], log=[], nheaps=0)
+    try:
+        try:
+            if scn["kind"] == "knn":
+                model._clustering(force_prototype=scn["force"])
+            else:
+                model._clustering(k)
+        finally:
+            CTX["on"] = False
+    except Exception as ex:
+        return None, ("exception", "%s: %s" % (type(ex).__name__, str(ex)[:200]))
+    snaps = [s for s in CTX["snaps"] if s["policy"] == "max"]
+    nodes = sg.nodes
+    dens = [float(nd.density) for nd in nodes]
+    initc = [d - 1 for d in dens]
+    fin_cost = [float(nd.cost) for nd in nodes]
+    rk = H.Ranker()
+    rk.add_all(dens + initc + fin_cost)
+    for s in snaps:
+        rk.add_all(s["key"])
+    if rk.unrankable:
+        return None, ("violation", "C13", "non_finite_density_or_cost", "NaN/inf after a clustering pass")
+    rk.freeze()
+    first = snaps[0]
+    adj_used = [first["adj"][i][: first["npl"][i] + k] for i in range(n)] if scn["kind"] == "unsup" else [list(a) for a in first["adj"]]
+    ev = []
+    for kx, s in enumerate(snaps):
+        if s["p"] is False:
+            continue
+        e = {"p": int(s["p"]) + 1}
+        nxt = snaps[kx + 1] if kx + 1 < len(snaps) else None
+        if nxt is not None:
+            e.update(key=[rk(v) for v in nxt["key"]], pred=[x + 1 for x in nxt["pred"]], root=[x + 1 for x in nxt["root"]],
+                     lab=[x for x in nxt["clab"]] if scn["kind"] == "unsup" else [x + 1 for x in nxt["plab"]])
+        ev.append(e)
+    tr = {
+        "n": n, "k": k, "kind": scn["kind"], "direct": 1, "force": 1 if scn["force"] else 0, "prop": 0,
+        "dens": [rk(v) for v in dens], "initc": [rk(v) for v in initc], "L": [int(y) + 1 for y in scn["Y"]],
+        "Wd": [[0] * n for _ in range(n)],
+        "adj0": [[x + 1 for x in a] for a in scn["adj"]],
+        "adj": [[x + 1 for x in a] for a in adj_used],
+        "ev": ev,
+        "fin": {"cost": [rk(v) for v in fin_cost], "pred": [int(nd.pred) + 1 for nd in nodes], "root": [int(nd.root) + 1 for nd in nodes],
+                "plab": [int(nd.predicted_label) + 1 for nd in nodes], "clab": [int(nd.cluster_label) for nd in nodes], "nc": int(sg.n_clusters)},
+        "q": [],
+    }
+    return {"trace": tr, "fin": {}, "log": [], "skipped_q": 0}, None
